@@ -80,6 +80,16 @@ class Obj:
         return 'Obj<%s>(%s)' % (self.cls, ', '.join(self.attrs))
 
 
+class NT(tuple):
+    """a namedtuple value: exploded tuple with field names."""
+
+    def __new__(cls, vals, names, tname='NT'):
+        o = tuple.__new__(cls, vals)
+        o._names = list(names)
+        o._tname = tname
+        return o
+
+
 class IterV:
     """a lazily described finite sequence: n (int or z3 Int) and get(i) -> value."""
 
@@ -107,7 +117,8 @@ def lit(e):
 def wrap(ty, e, parent=None, key=None):
     """z3 expr of type ty -> interpreter value. tuples are exploded; literals become concrete."""
     if isinstance(ty, TTuple):
-        return tuple(wrap(t, ty.get(e, i)) for i, t in enumerate(ty.ts))
+        vals = tuple(wrap(t, ty.get(e, i)) for i, t in enumerate(ty.ts))
+        return NT(vals, ty.names, ty.name) if ty.names else vals
     if isinstance(ty, (TInt.__class__, TBool.__class__, TStr.__class__)):
         v = lit(e)
         if v is not None:
@@ -143,6 +154,8 @@ def type_of(v):
 
 def to_z3(v, ty=None):
     """interpreter value -> z3 expr (coerced to ty if given)."""
+    if isinstance(ty, TKey) and isinstance(v, Box) and v.ty is None and not v.cd:
+        return z3.Const('empty_' + ty.name, ty.sort())      # the empty dict literal as an opaque value of this sort
     if isinstance(v, Box):
         v = SV(v.ty, v.e)
     if isinstance(v, SV):
@@ -165,6 +178,8 @@ def to_z3(v, ty=None):
         return ty.some(to_z3(v, ty.t))
     if v is None:
         raise EngineError('None where %s expected' % ty)
+    if isinstance(ty, TTuple) and isinstance(v, Obj) and 'nt_fields' in v.__dict__:
+        v = tuple(v.attrs[f] for f in v.__dict__['nt_fields'])
     if isinstance(ty, TTuple):
         if not isinstance(v, tuple) or len(v) != len(ty.ts):
             raise EngineError('tuple shape mismatch %r vs %s' % (v, ty))
